@@ -80,6 +80,13 @@ def run_step(step, heap):
         # lock-step run decomposes bit-identical data and gets identical factors
         if isinstance(x, sr.FermionicArray):
             x.phase_sync(inplace=True)
+        # ... and signed zeros are made positive: -(0*v) and (-0)*v are equal
+        # numbers but, in complex arithmetic, different bit patterns (-0-0j vs
+        # +0-0j), and LAPACK's reflector signs follow the sign bit
+        for k_ in list(x.blocks):
+            b_ = np.asarray(x.blocks[k_])
+            if b_.dtype.kind in "fc":
+                x.blocks[k_] = b_ + np.zeros((), dtype=b_.dtype)
         which = a["which"]
         if which == "qr":
             return tuple(sr.linalg.qr(x, stabilized=bool(a.get("stabilized"))))
@@ -1226,6 +1233,19 @@ def g_matmul(ctx, heap):
     if na is None:
         return None
     x = heap[na]
+    if rng.random() < 0.4:
+        # the existing value as the *right* operand: a fresh left partner
+        # whose last index is the conjugate of its first one
+        spec, _ = _matching_partner_spec(ctx, x, [0], extra=rng.choice([0, 1]), lead=True)
+        spec = dict(spec)
+        spec["indices"] = list(reversed(spec["indices"]))
+        spec = ctx.new_spec(kind=spec["kind"], sym=spec["sym"], indices=spec["indices"],
+                            static=spec["static"], dtype=spec["dtype"])
+        nl = ctx.fresh()
+        steps = [{"op": "new", "in": [], "out": [nl], "a": {"spec": spec}}]
+        nl = _lazy_signs(ctx, nl, spec["kind"], steps)
+        steps.append({"op": "matmul", "in": [nl, na], "out": [ctx.fresh()], "a": {}})
+        return steps
     ax_a = [x.ndim - 1]
     spec, ax_b = _matching_partner_spec(ctx, x, ax_a, extra=rng.choice([0, 1]), lead=True)
     nb = ctx.fresh()
@@ -1485,7 +1505,9 @@ def g_unary(ctx, heap):
     op = rng.choice(ops)
     a = {}
     if op == "clip":
-        a["lo"], a["hi"] = rng.choice([(-0.5, 2.0), (0.25, 1.5), (-2.0, -0.25)])
+        a["lo"], a["hi"] = rng.choice([(-0.5, 2.0), (0.25, 1.5), (-2.0, -0.25),
+                                       # symmetric and degenerate intervals
+                                       (-1.0, 1.0), (0.5, 0.5), (-0.75, -0.75)])
     if kind_of(x) != "V":
         a["style"] = ctx.style("func", "do") if op != "norm" else ctx.style("func")
     return [{"op": op, "in": [n], "out": [ctx.fresh()], "a": a}]
